@@ -1,5 +1,6 @@
 #include <symengine/visitor.h>
 #include <symengine/basic.h>
+#include <symengine/test_visitors.h>
 
 namespace SymEngine
 {
@@ -99,9 +100,27 @@ public:
         apply(*x.get_base());
 
         if (eq(**imag_, *zero)) {
-            *real_ = x.rcp_from_this();
-            *imag_ = zero;
-            return;
+            // A power of a real base is real for an integer exponent, and for
+            // a real exponent if the base is positive (exp(I) and sqrt(1 - pi)
+            // are not real).
+            if (is_a<Integer>(*exp_)
+                or (is_true(is_positive(*x.get_base()))
+                    and is_true(is_real(*exp_)))) {
+                *real_ = x.rcp_from_this();
+                *imag_ = zero;
+                return;
+            }
+            // negative base, rational exponent:
+            // b**e = (-b)**e * (cos(pi*e) + I*sin(pi*e))
+            if (is_a<Rational>(*exp_)
+                and is_true(is_negative(*x.get_base()))) {
+                auto magn = pow(neg(x.get_base()), exp_);
+                auto ang = mul(pi, exp_);
+                *real_ = mul(magn, cos(ang));
+                *imag_ = mul(magn, sin(ang));
+                return;
+            }
+            throw SymEngineException("Not Implemented");
         }
         if (is_a<Integer>(*exp_)) {
             if (static_cast<const Integer &>(*exp_).is_negative()) {
